@@ -176,7 +176,12 @@ func (c *cli) writer() {
 	}
 }
 
-func (c *cli) send(b func(seq int) wamp.Message) { c.out <- b }
+// after the end of the burst the queue is closed; a late INVOCATION then finds
+// no writer any more
+func (c *cli) send(b func(seq int) wamp.Message) {
+	defer func() { _ = recover() }()
+	c.out <- b
+}
 
 // replies for the script of this client (which awaits one reply at a time);
 // clients without a script let them fall
